@@ -87,6 +87,7 @@ fn setup(c: &EngCase, max_men: usize, st: &mut Stats) -> Result<Option<Setup>, S
 fn search_err(e: SearchError, fen: &str, k: u64) -> String {
     match e {
         SearchError::Runaway => format!("search of `{fen}` with the limit expiring at poll {k} keeps polling more than {POST_EXPIRY_POLL_BOUND} times after expiry (does not terminate)"),
+        SearchError::Unpolled => format!("search of `{fen}` with the limit expiring at poll {k} {}", crate::obs::UNPOLLED_TEXT),
         SearchError::Panic(p) => format!("search of `{fen}` with the limit expiring at poll {k} panics: {p}"),
     }
 }
@@ -284,6 +285,7 @@ fn c11_directed(ctx: &WorkerCtx) -> Result<(), Fail> {
         }
         for mirror in [false, true] {
             let c = EngCase { play: PlayCase { root: Root::Named { idx: i as u16, mirror }, half: 0, full: 0, choices: vec![], aux: 0 }, history: false, extra: vec![100, 30000, 65000], clock: None };
+            ctx.about_to_run(&eng_json(&c));
             guarded(|| c11_case(&c, &mut st, 40)).unwrap_or_else(Err).map_err(|d| Fail { case: eng_json(&c), detail: d })?;
         }
     }
@@ -296,13 +298,14 @@ fn c11_directed(ctx: &WorkerCtx) -> Result<(), Fail> {
             let b = to_board(&pos).map_err(|d| Fail { case: json!({"fen": fen}), detail: d })?;
             let legal = pos.legal();
             for budget_us in [0u64, 1, 1000, 3000] {
-                let r = guarded(|| {
+                let case = json!({"duration_timeout_us": budget_us, "fen": fen, "positional": i % 2 == 0});
+                ctx.about_to_run(&case);
+                let r = {
                     let t = chess_engine::DurationTimeout::new(std::time::Duration::from_micros(budget_us));
                     let mut e = chess_engine::Engine::default();
                     e.positional = i % 2 == 0;
-                    e.search(&b, &ThreeFold::new(), &t)
-                });
-                let case = json!({"duration_timeout_us": budget_us, "fen": fen});
+                    crate::obs::search_plain(&mut e, &b, &ThreeFold::new(), &t)
+                };
                 match r {
                     Err(p) => return Err(Fail { case, detail: format!("C11 search of `{fen}` under DurationTimeout of {budget_us} us: {p}") }),
                     Ok((Some(m), _)) if !legal.contains(&from_cm(m)) => return Err(Fail { case, detail: format!("C11 search of `{fen}` under DurationTimeout of {budget_us} us returns illegal {}", from_cm(m)) }),
@@ -326,6 +329,7 @@ fn c11_directed(ctx: &WorkerCtx) -> Result<(), Fail> {
         }
         made += 1;
         let c = fen_case(&p);
+        ctx.about_to_run(&eng_json(&c));
         guarded(|| c11_case(&c, &mut st, 24)).unwrap_or_else(Err).map_err(|d| Fail { case: eng_json(&c), detail: d })?;
         st.class(if p.legal().len() > 128 { "directed: constructed position with more than 128 legal moves" } else { "directed: constructed position with 100..128 legal moves" });
     }
@@ -346,7 +350,9 @@ pub const C11: CheckDef = CheckDef {
             let pos = Pos::from_fen(fen).ok_or("bad fen")?;
             let b = to_board(&pos)?;
             let t = chess_engine::DurationTimeout::new(std::time::Duration::from_micros(us));
-            let (mv, _) = chess_engine::Engine::default().search(&b, &ThreeFold::new(), &t);
+            let mut e = chess_engine::Engine::default();
+            e.positional = v.get("positional").and_then(|x| x.as_bool()).unwrap_or(false);
+            let (mv, _) = crate::obs::search_plain(&mut e, &b, &ThreeFold::new(), &t).map_err(|d| format!("C11 search of `{fen}` under DurationTimeout of {us} us: {d}"))?;
             if let Some(m) = mv {
                 if !pos.legal().contains(&from_cm(m)) {
                     return Err(format!("C11 illegal move {} under DurationTimeout", from_cm(m)));
@@ -614,7 +620,11 @@ fn c12_directed(ctx: &WorkerCtx) -> Result<(), Fail> {
         for q in [p.clone(), p.mirror()] {
             let sub = Setup { board: to_board(&q).map_err(|d| Fail { case: json!({"fen": q.fen()}), detail: d })?, legal: q.legal(), pos: q.clone(), tf: ThreeFold::new() };
             let case = fen_case(&q);
-            guarded(|| c12_eval(sub, false, &mut st)).unwrap_or_else(Err).map_err(|d| Fail { case: eng_json(&case), detail: d })?;
+            {
+                ctx.about_to_run(&eng_json(&case));
+                guarded(|| c12_eval(sub, false, &mut st))
+            }
+            .unwrap_or_else(Err).map_err(|d| Fail { case: eng_json(&case), detail: d })?;
             hits += 1;
         }
     }
@@ -678,7 +688,11 @@ fn c12_directed(ctx: &WorkerCtx) -> Result<(), Fail> {
         for q in [p.clone(), p.mirror()] {
             let sub = Setup { board: to_board(&q).map_err(|d| Fail { case: json!({"fen": q.fen()}), detail: d })?, legal: q.legal(), pos: q.clone(), tf: ThreeFold::new() };
             let case = fen_case(&q);
-            guarded(|| c12_eval(sub, false, &mut st)).unwrap_or_else(Err).map_err(|d| Fail { case: eng_json(&case), detail: d })?;
+            {
+                ctx.about_to_run(&eng_json(&case));
+                guarded(|| c12_eval(sub, false, &mut st))
+            }
+            .unwrap_or_else(Err).map_err(|d| Fail { case: eng_json(&case), detail: d })?;
             under += 1;
         }
         if only_under {
@@ -759,7 +773,11 @@ fn c12_directed(ctx: &WorkerCtx) -> Result<(), Fail> {
         for q in [p.clone(), p.mirror()] {
             let sub = Setup { board: to_board(&q).map_err(|d| Fail { case: json!({"fen": q.fen()}), detail: d })?, legal: q.legal(), pos: q.clone(), tf: ThreeFold::new() };
             let case = fen_case(&q);
-            guarded(|| c12_eval(sub, false, &mut st)).unwrap_or_else(Err).map_err(|d| Fail { case: eng_json(&case), detail: d })?;
+            {
+                ctx.about_to_run(&eng_json(&case));
+                guarded(|| c12_eval(sub, false, &mut st))
+            }
+            .unwrap_or_else(Err).map_err(|d| Fail { case: eng_json(&case), detail: d })?;
         }
         st.class("directed: > 128 legal moves and every mating move late in iteration order");
     }
@@ -777,7 +795,11 @@ fn c12_directed(ctx: &WorkerCtx) -> Result<(), Fail> {
         made += 1;
         let sub = Setup { board: to_board(&p).map_err(|d| Fail { case: json!({"fen": p.fen()}), detail: d })?, legal, pos: p.clone(), tf: ThreeFold::new() };
         let case = fen_case(&p);
-        guarded(|| c12_eval(sub, false, &mut st)).unwrap_or_else(Err).map_err(|d| Fail { case: eng_json(&case), detail: d })?;
+        {
+                ctx.about_to_run(&eng_json(&case));
+                guarded(|| c12_eval(sub, false, &mut st))
+            }
+            .unwrap_or_else(Err).map_err(|d| Fail { case: eng_json(&case), detail: d })?;
         st.class("directed: constructed position with more than 128 legal moves");
     }
     Ok(())
